@@ -20,17 +20,21 @@ EXTENDS Integers, Sequences, FiniteSets, TLC
 CONSTANTS Kinds,        \* request kinds
           FailKinds,    \* subset of Kinds that raise part-way through
           MaxHist,
-          Deviation     \* "none" | "global_counter" | "hash_order"
+          Deviation,    \* "none" | "global_counter" | "hash_order" | "leak_in_build"
+          TargetOf(_)   \* the @onnx_function target a request calls ("" if none): requests may share one
 
-VARIABLES hist, registry, sigCache, globalCtr, hashSeed, emitted
-vars == <<hist, registry, sigCache, globalCtr, hashSeed, emitted>>
+VARIABLES hist, registry, sigCache, globalCtr, hashSeed, emitted,
+          inBuild       \* targets marked "body being traced" (_IN_FUNCTION_BUILD); a conversion-scoped context variable:
+                        \* set while a function body is traced, reset on EVERY exit -- a marked target is inlined, not called
+vars == <<hist, registry, sigCache, globalCtr, hashSeed, emitted, inBuild>>
 
 Init == /\ hist = <<>> /\ registry = {} /\ sigCache = {} /\ globalCtr = 0
         /\ hashSeed \in {0, 1}
-        /\ emitted = <<>>
+        /\ emitted = <<>> /\ inBuild = {}
 
 \* the model a conversion emits, as the tuple of everything it depends on
-Model(r, startCtr, order) == <<r, startCtr, order>>
+Model(r, startCtr, order) == <<r, startCtr, order, "call">>
+ModelInlined(r, startCtr, order) == <<r, startCtr, order, "inlined">>
 
 Convert(r) ==
     /\ Len(hist) < MaxHist
@@ -39,8 +43,11 @@ Convert(r) ==
     /\ sigCache' = sigCache \cup {r}
     /\ LET start == IF Deviation = "global_counter" THEN globalCtr ELSE 0      \* per-conversion counters start at 0
            order == IF Deviation = "hash_order" THEN hashSeed ELSE 0
-       IN emitted' = IF r \in FailKinds THEN emitted ELSE Append(emitted, [req |-> r, model |-> Model(r, start, order)])
+           mdl == IF TargetOf(r) # "" /\ TargetOf(r) \in inBuild THEN ModelInlined(r, start, order) ELSE Model(r, start, order)
+       IN emitted' = IF r \in FailKinds THEN emitted ELSE Append(emitted, [req |-> r, model |-> mdl])
     /\ globalCtr' = globalCtr + 1      \* names handed out during the conversion (even a failing one)
+    \* the mark is removed in a finally block; the deviation forgets it when the body trace raises
+    /\ inBuild' = IF Deviation = "leak_in_build" /\ r \in FailKinds /\ TargetOf(r) # "" THEN inBuild \cup {TargetOf(r)} ELSE inBuild
     /\ UNCHANGED hashSeed
 
 Next == \E r \in Kinds : Convert(r)
